@@ -42,7 +42,7 @@ def run(ctx):
              "pairs; depth 2-3 nestings) x scenarios {identity, registered function echo, registered constant, context "
              "field in 3 field orders, script-side construction/matching, every argument position of arities 2/4/7 in "
              "both directions, narrow-int arithmetic handed to Rust} x edge values then random values; plus the model "
-             "facts (layout, offsets, discriminants, lowered and runtime-call signatures of 137 single and 250/1500 random "
+             "facts (layout, offsets, discriminants, lowered and runtime-call signatures of 137 single and 400/6000 random "
              "multi-parameter signatures) against the Lean driver; a class is distinct by (scenario, position, "
              "size/align class signature of the type) with every round agreeing",
         search=search,
